@@ -5,6 +5,7 @@ import (
 	"go/token"
 	"go/types"
 	"os"
+	"sort"
 	"strings"
 
 	"golang.org/x/tools/go/ssa"
@@ -1247,7 +1248,7 @@ func failureRejects(p *Prog, root, host *ssa.Function, call *ssa.Call, depth int
 			acc[e.Ret] = true
 		}
 		for _, fb := range failing {
-			if w := reachAvoidFromPlain(fb, 0, func(in ssa.Instruction) bool { return acc[in] }, func(ssa.Instruction) bool { return false }, map[*ssa.BasicBlock]bool{fb: true}); w != nil {
+			if w := reachTrackingErr(fb, errv, func(in ssa.Instruction) bool { return acc[in] }); w != nil {
 				return false, "after the failed lookup at " + p.Pos(call.Pos()) + " the accepting exit at " + p.Pos(w.Pos()) + " is reachable"
 			}
 		}
@@ -1348,4 +1349,125 @@ func shortCallee(call *ssa.Call) string {
 		return shortName(cal)
 	}
 	return "the call"
+}
+
+// reachTrackingErr: the first instruction satisfying target that is reachable from the start of block fb,
+// on the paths where the error value errv is non-nil, following error variables set on the way: entering a
+// block binds its phis to the incoming values (nil constant / a value known to be non-nil: errv itself, an
+// error constructor, errors.Join with a non-nil operand), and a later `if phi != nil` follows the matching
+// branch only (`errs = errors.Join(errs, err); break` … `if errs != nil { return … }`).
+func reachTrackingErr(fb *ssa.BasicBlock, errv ssa.Value, target func(ssa.Instruction) bool) ssa.Instruction {
+	type st struct {
+		b   *ssa.BasicBlock
+		key string
+	}
+	seen := map[st]bool{}
+	var nonNil func(v ssa.Value, asg map[*ssa.Phi]bool, depth int) (bool, bool)
+	nonNil = func(v ssa.Value, asg map[*ssa.Phi]bool, depth int) (isNonNil, known bool) {
+		if depth > 3 {
+			return false, false
+		}
+		if isNilConst(v) {
+			return false, true
+		}
+		if v == errv || knownNonNilError(v) {
+			return true, true
+		}
+		if ph, ok := v.(*ssa.Phi); ok {
+			nn, ok := asg[ph]
+			return nn, ok
+		}
+		if call, ok := v.(*ssa.Call); ok {
+			if cal := call.Call.StaticCallee(); cal != nil && cal.String() == "errors.Join" && len(call.Call.Args) == 1 {
+				if sl, ok := call.Call.Args[0].(*ssa.Slice); ok {
+					if arr, ok := sl.X.(*ssa.Alloc); ok && arr.Referrers() != nil {
+						for _, r := range *arr.Referrers() {
+							ia, ok := r.(*ssa.IndexAddr)
+							if !ok || ia.Referrers() == nil {
+								continue
+							}
+							for _, r2 := range *ia.Referrers() {
+								if stv, ok := r2.(*ssa.Store); ok && stv.Addr == ssa.Value(ia) {
+									if nn, known := nonNil(stv.Val, asg, depth+1); known && nn {
+										return true, true
+									}
+								}
+							}
+						}
+					}
+				}
+			}
+		}
+		return false, false
+	}
+	var found ssa.Instruction
+	var rec func(pred, b *ssa.BasicBlock, asg map[*ssa.Phi]bool)
+	rec = func(pred, b *ssa.BasicBlock, asg map[*ssa.Phi]bool) {
+		if found != nil {
+			return
+		}
+		next := make(map[*ssa.Phi]bool, len(asg)+1)
+		for k, v := range asg {
+			next[k] = v
+		}
+		if pred != nil {
+			for _, in := range b.Instrs {
+				ph, ok := in.(*ssa.Phi)
+				if !ok {
+					break
+				}
+				for i, pb := range b.Preds {
+					if pb != pred || i >= len(ph.Edges) {
+						continue
+					}
+					if nn, known := nonNil(ph.Edges[i], asg, 0); known {
+						next[ph] = nn
+					} else {
+						delete(next, ph)
+					}
+				}
+			}
+		}
+		keys := make([]string, 0, len(next))
+		for ph, v := range next {
+			keys = append(keys, ph.Name()+map[bool]string{true: "+", false: "-"}[v])
+		}
+		sort.Strings(keys)
+		k := st{b, strings.Join(keys, ",")}
+		if seen[k] {
+			return
+		}
+		seen[k] = true
+		for _, in := range b.Instrs {
+			if target(in) {
+				found = in
+				return
+			}
+		}
+		iff, isIf := b.Instrs[len(b.Instrs)-1].(*ssa.If)
+		for i, s := range b.Succs {
+			if isIf && len(b.Succs) == 2 {
+				if bo, ok := iff.Cond.(*ssa.BinOp); ok && (bo.Op == token.NEQ || bo.Op == token.EQL) {
+					var tested ssa.Value
+					if isNilConst(bo.Y) {
+						tested = bo.X
+					} else if isNilConst(bo.X) {
+						tested = bo.Y
+					}
+					if tested != nil {
+						if nn, known := nonNil(tested, next, 0); known {
+							// the branch taken: (tested != nil) == nn for NEQ
+							takesTrue := nn == (bo.Op == token.NEQ)
+							if takesTrue != (i == 0) {
+								continue
+							}
+						}
+					}
+				}
+			}
+			rec(b, s, next)
+		}
+	}
+	rec(nil, fb, map[*ssa.Phi]bool{})
+	return found
 }
